@@ -105,6 +105,8 @@ func c19gen(g *gen, tier string, w *bufio.Writer) {
 		}
 		fmt.Fprintf(w, "win %s\n", strings.Join(cases, ";"))
 	}
+	// fresh counters incremented by several goroutines at once
+	fmt.Fprintf(w, "cconc %d %d %d\n", 1500, 4+g.intn(6), 3+g.intn(4))
 	// adders running concurrently with the cleaner: no sample may be lost, duplicated or invented
 	fmt.Fprintf(w, "wconc 1500 3700 %d\n", 1+g.intn(3))
 	if tier == "thorough" {
@@ -224,6 +226,45 @@ func c19run(line string) (string, string) {
 		return strings.Join(res, ";"), "-"
 	case "wconc":
 		return c19runConcurrent(f[1:])
+	case "cconc":
+		// counters equal the sum of their increments regardless of concurrency: `keys` fresh counters,
+		// each incremented `adds` times by each of `gor` goroutines released together
+		keys, _ := strconv.Atoi(f[1])
+		gor, _ := strconv.Atoi(f[2])
+		adds, _ := strconv.Atoi(f[3])
+		st := metrics.NewStats()
+		short := 0
+		for k := 0; k < keys; k++ {
+			key := fmt.Sprintf("c%d", k)
+			start := make(chan struct{})
+			var wg sync.WaitGroup
+			for gi := 0; gi < gor; gi++ {
+				wg.Add(1)
+				go func(gi int) {
+					defer wg.Done()
+					<-start
+					for a := 0; a < adds; a++ {
+						if (gi+a)%3 == 0 {
+							st.IncrementCounterBy(key, 1)
+						} else {
+							st.IncrementCounter(key)
+						}
+					}
+				}(gi)
+			}
+			close(start)
+			wg.Wait()
+		}
+		got := st.Get()
+		for k := 0; k < keys; k++ {
+			if got[fmt.Sprintf("c%d", k)] != int64(gor*adds) {
+				short++
+			}
+		}
+		if short > 0 {
+			return fmt.Sprintf("wrong=%d", 1), fmt.Sprintf("FAIL:%d-of-%d-counters-differ-from-the-sum-of-their-increments", short, keys)
+		}
+		return "wrong=0", "ok"
 	case "getn":
 		// several sampled metrics in one Stats: every metric's min/max/avg is computed from its own
 		// samples, whatever else is exported at the same time (repeated: map iteration order varies)
